@@ -25,6 +25,7 @@ import (
 	"fmt"
 	"io"
 	"net/http"
+	"net/url"
 	"strconv"
 	"strings"
 	"time"
@@ -640,6 +641,10 @@ func (s *S3Proxy) UploadPartCopy(ctx context.Context, input *s3.UploadPartCopyIn
 		input.SSECustomerKeyMD5 = nil
 	}
 
+	if input.CopySource != nil {
+		input.CopySource = backend.GetPtrFromString(escapeCopySource(*input.CopySource))
+	}
+
 	output, err := s.client.UploadPartCopy(ctx, input)
 	if err != nil {
 		return s3response.CopyPartResult{}, handleError(err)
@@ -1100,6 +1105,10 @@ func (s *S3Proxy) CopyObject(ctx context.Context, input s3response.CopyObjectInp
 		if err == nil {
 			expires = &exp
 		}
+	}
+
+	if input.CopySource != nil {
+		input.CopySource = backend.GetPtrFromString(escapeCopySource(*input.CopySource))
 	}
 
 	out, err := s.client.CopyObject(ctx,
@@ -1618,6 +1627,17 @@ func handleError(err error) error {
 		return apiErr
 	}
 	return err
+}
+
+// escapeCopySource url encodes the bucket/key part of a copy source: the
+// gateway hands over the decoded header value, the SDK sends it as it is
+func escapeCopySource(src string) string {
+	version := ""
+	if i := strings.LastIndex(src, "?versionId="); i != -1 {
+		src, version = src[:i], src[i:]
+	}
+	esc := strings.ReplaceAll(url.QueryEscape(src), "%2F", "/")
+	return strings.ReplaceAll(esc, "+", "%20") + version
 }
 
 func base64Encode(input []byte) string {
